@@ -195,11 +195,13 @@ CLAIMED = {
               "multiplier n, the min-shift notwithstanding; the first guess of rotated moments is the rotated first guess, the "
               "exponent lambda.T(theta) of rotated multipliers is the exponent at theta - phi, so for any multipliers the MEM2 "
               "distribution rotates by k bins with them on every uniform grid, and the approximate variant as a whole rotates "
-              "with its input (all N, theta0, k). Correspondence as C05; fidelity of Newton / scipy / MEM on "
+              "with its input (all N, theta0, k); MEM: Phi1 -> Phi1 e^{i phi}, Phi2 -> Phi2 e^{2 i phi}, numerator unchanged, so the "
+              "value at theta of rotated moments is the value at theta - phi, and MEM with its discrete normalisation rotates "
+              "by k bins on every uniform grid (bridge lemmas tie the list model to these functions). Correspondence as C05; fidelity of Newton / scipy / MEM on "
               "von-Mises mixtures with spread >= 1.5 bins (N in 24,36,72,144), Newton-vs-scipy agreement, rotation by every k "
               "and mirror equivariance of all four variants, finite-difference Jacobian, on the implementation."),
         design="6/C06", technique="Lean 4 proof at ℝ (loop invariant, closed-form Jacobian, HasDerivAt) + Float-model correspondence + implementation oracles",
-        note=PROOF_NOTE + " That the solvers do converge on resolved inputs, MEM's discretisation error (exact aliasing identity in the harness) and rotation equivariance of whole Newton / scipy / MEM runs are decided by the oracles only (the theorems cover the first guess, the distribution for any multipliers and the approximate variant)."),
+        note=PROOF_NOTE + " That the solvers do converge on resolved inputs, MEM's discretisation error (exact aliasing identity in the harness) and rotation equivariance of whole Newton / scipy runs and the mirror image are decided by the oracles only (the theorems cover MEM, the approximate variant, the first guess and the distribution for any multipliers)."),
     "C08": dict(
         text=("Lean 4 theorems at ℝ over the model of st4_wind_input / st4_wave_breaking / st6_wave_breaking / operations "
               "(one spatial point, wavenumbers and group velocities as inputs): the ST4 input of every bin is >= 0 for a "
@@ -216,7 +218,7 @@ CLAIMED = {
     "C09": dict(
         text=("Lean 4 theorems at ℝ for every N and every rotation k (mirror for grids starting at 0): the mutual-angle wrap "
               "does not change the cosine and is 2 pi periodic; the ST4 input row of a jointly rotated spectrum and wind is "
-              "the rotated row (and the mirrored row for the mirror image); the band-integrated saturation and the "
+              "the rotated row (and the mirrored row for the mirror image), with bridge lemmas from the list model; the band-integrated saturation and the "
               "cumulative-breaking strength are circular convolutions whose kernels depend on the index difference only "
               "(|c e^{ia} - c' e^{ib}|^2 = c^2 + c'^2 - 2cc' cos(a-b)), hence commute with the rotation; direction integrals "
               "(bulk rates, ST6 saturation) are invariant; the stress vector rotates as a vector, so its magnitude is "
@@ -234,12 +236,14 @@ CLAIMED = {
               "bracketed, end values of opposite sign) and its consequence: every value returned through the convergence "
               "test has a last step below atol / rtol and, if bracketed, lies in a bracket with a sign change, which for a "
               "continuous balance contains an exact root (IVT); a returned wave-dependent roughness is exp of such a value, "
-              "hence positive, or missing. Correspondence: both solvers against the jitted / numpy code on seven test-function "
+              "hence positive, or missing; without the viscous term exact Charnock solutions in (0, elev/e^2) are ordered like their "
+              "wind speeds (z ln^2(elev/z) strictly increasing there) and the drag coefficient increases with the roughness. "
+              "Correspondence: both solvers against the jitted / numpy code on seven test-function "
               "families (raised vs returned and value), charnock_roughness_length_from_u10 and drag for all input kinds, the "
               "stress balance and the Janssen roughness; Charnock residual <= 1e-4, monotonicity, NaN and the "
               "single-sign-change residual (1e-4) oracles."),
         design="6/C10, 11.3", technique="Lean 4 proof at ℝ (solver invariants by induction over iterations, IVT) + Float-model correspondence + residual oracles",
-        note=PROOF_NOTE + " Convergence itself, the 1e-4 Janssen residual and monotonicity of the exact Charnock root in U are sampled, not proved."),
+        note=PROOF_NOTE + " Convergence itself and the 1e-4 Janssen residual are sampled, not proved; monotonicity is proved for exact solutions and sampled for the returned approximations."),
     "C11": dict(
         text=("Lean 4 theorems at ℝ: U10 = 0 when the integrated dissipation is 0; without direction iteration the direction "
               "handed in is returned; with hard bounds (0, inf) and a non-negative guess no iterate is negative, so the "
